@@ -374,9 +374,14 @@ def explore(ctx, drv, model, cases, what, search=False):
         return
     impl = ctx.run_lines(drv, cases, timeout=3000, shards=16)
     ctx.cov["evaluations"] += len(cases)
-    # model lines: R cases are translated to Q lines from the library's own numerator/denominator
+    # model lines.  An R case is solved by the library as set_complement(solve(num), solve(den)) with the
+    # library's own numerator/denominator (printed by the driver); the model solves both polynomials,
+    # the driver evaluates the templates, and the complement is taken here on the resulting trees (tree
+    # equality is the library's business, C01/C02) -- one expected set per pair of alternatives.
     mcases = []
-    for c, i in zip(cases, impl):
+    den_line = {}         # case index -> index of the model line of the denominator
+    extra_lines = []
+    for idx, (c, i) in enumerate(zip(cases, impl)):
         k = c.split()[0]
         if k == "R":
             canon, extra, _ = split_impl(i)
@@ -386,15 +391,17 @@ def explore(ctx, drv, model, cases, what, search=False):
                     num, den, flags = f[4:].split(";")
                     # modelled path: numerator and denominator reach solve_poly (neither is a Mul)
                     if "?" not in num and "?" not in den and flags[1:] == "00" and den.count(",") >= 1:
-                        q = "Q %s ;; %s" % (num.replace(",", " "), den.replace(",", " "))
+                        q = "S U %s" % num.replace(",", " ")
+                        den_line[idx] = len(cases) + len(extra_lines)
+                        extra_lines.append("S U %s" % den.replace(",", " "))
             mcases.append(q or "SKIP")
         elif k == "T":
             mcases.append("SKIP")
         else:
             mcases.append(c)
-    mod = ctx.run_lines(model, mcases, timeout=3000, shards=8)
+    mod = ctx.run_lines(model, mcases + extra_lines, timeout=3000, shards=8)
     # evaluate the alternatives of the model with the library's arithmetic
-    pending = []          # (case index, [alternative template lists])
+    pending = []          # (model line index, [alternative template lists])
     for idx, m in enumerate(mod):
         if m.startswith("ALTS "):
             alts = [a.strip() for a in m.split(";")[1:]]
@@ -402,12 +409,43 @@ def explore(ctx, drv, model, cases, what, search=False):
     first = eval_alts(ctx, drv, [alts[0] for _, alts in pending])
     evaluated = {idx: [f] for (idx, _), f in zip(pending, first)}
     # second round, in one batch: the remaining alternatives of the cases whose first one differs
-    todo = [(idx, alts) for idx, alts in pending
-            if len(alts) > 1 and evaluated[idx][0] != split_impl(impl[idx])[0]
-            and not split_impl(impl[idx])[2] and not is_crash(split_impl(impl[idx])[0])]
+    # (all alternatives for the two polynomials of a rational case)
+    def needs_more(idx):
+        if idx >= len(cases) or idx in den_line:
+            return True
+        canon, _, oracle = split_impl(impl[idx])
+        return evaluated[idx][0] != canon and not oracle and not is_crash(canon)
+    todo = [(idx, alts) for idx, alts in pending if len(alts) > 1 and needs_more(idx)]
     flat = [(idx, a) for idx, alts in todo for a in alts[1:]]
     for (idx, _), r in zip(flat, eval_alts(ctx, drv, [a for _, a in flat]) if flat else []):
         evaluated[idx].append(r)
+
+    def members(fin):
+        # "FIN n d1|d2|..." -> set of dumps
+        parts = fin.split(" ", 2)
+        return set(parts[2].split("|")) if len(parts) == 3 and parts[2] else set()
+
+    def fin_of(ms):
+        ms = sorted(ms)
+        return "FIN %d %s" % (len(ms), "|".join(ms)) if ms else "EMPTY"
+
+    def expected_rational(idx):
+        """the expected canonical results of an R case (one per pair of alternatives), or None"""
+        mn, md = mod[idx], mod[den_line[idx]]
+        if mn == "EMPTY":
+            return ["EMPTY"]
+        if not mn.startswith("ALTS "):
+            return None
+        nums = evaluated[idx]
+        if md == "EMPTY":
+            return nums
+        if not md.startswith("ALTS "):
+            return None
+        dens = evaluated[den_line[idx]]
+        if any(not x.startswith("FIN ") for x in nums + dens):
+            return None
+        return [fin_of(members(a) - members(b)) for a in nums for b in dens]
+
     nd = 0
     for idx, c in enumerate(cases):
         canon, extra, oracle = split_impl(impl[idx])
@@ -429,7 +467,14 @@ def explore(ctx, drv, model, cases, what, search=False):
             continue
         ctx.cov["traces_validated_against_impl"] += 1
         ok = False
-        if idx in evaluated:
+        if k == "R":
+            exp = expected_rational(idx)
+            if exp is None:
+                ctx.cov["traces_validated_against_impl"] -= 1
+                continue
+            ok = canon in exp
+            shown = " || ".join(exp)
+        elif idx in evaluated:
             ok = canon in evaluated[idx]
             shown = " || ".join(evaluated[idx])
         elif k in ("L", "M", "N"):
